@@ -448,7 +448,10 @@ package fit
 //@@ a data record: header byte = local message type, then every field of the definition, in its order, through writeField
 //@ func (e *encoder) writeMesg(mesg reflect.Value, def *encodeMesgDef) (err error)
 //@   props C05 C06 C07
-//@   locals rangeindex int
+//@   locals rangeindex int, f *field, callarg1 reflect.Value, callarg2 *field
+//@@ C05/C06 "values on the wire equal the values in the File": the Value handed to writeField for a row of the
+//@@ definition is this message's own struct field of that row (same object, field f.sindex), with that row
+//@   callsite writeField [own-field] rvobj(callarg1) == rvobj(mesg) && rvmt(callarg1) == rvmt(mesg) && rvfld(callarg1) == f.sindex && callarg2 == f
 //@   use enc_field_ok(def.globalMesgNum)
 //@   requires e.w != nil && (isLE(e.arch) || isBE(e.arch)) && def != nil && enc_def_of(def) && rvismsg(mesg, int(def.globalMesgNum)) && def.globalMesgNum < 0xFF00
 //@   ensures [header] err == nil ==> wpos(e.w) >= old(wpos(e.w))+1 && outb(e.w, old(wpos(e.w))) == def.localMesgNum&0x0F
@@ -464,9 +467,6 @@ package fit
 //@   loop 0 decreases len(def.fields) - rangeindex
 //@   loop 0 dispatches writeField
 
-//@@ assumed (a loop over the global table of reflect.Type values, compared with ==; the table itself is checked by the
-//@@ closed obligations msgsTypes#injective and knownMsgNums.<m>#type): the struct type of a known message is found
-//@@ under its number
 //@@ the entry of msgsTypes under a known message number is that message's struct type (over the extracted
 //@@ initialiser of the table; reflect.TypeOf(XMsg{}) is the identity the reflect model gives the type of a
 //@@ Value viewing an XMsg)
